@@ -1016,11 +1016,14 @@ func finish(w *world, res mon.BubbleResult, inconc string) outcome {
 		return outcome{inconc: inconc}
 	}
 	out := outcome{nontrivial: w.wasLive || w.placedAny, placed: w.placedAny}
-	if !w.viol && out.nontrivial && rec.WantSample() && (w.idx%7 == 0 || w.placedAny) && len(w.seq) >= 3 {
+	if !w.viol && out.nontrivial && sampled[w.mode] < 1 && (w.placedAny || (w.mode != "hook" && w.mode != "randhook")) && len(w.seq) >= 4 && rec.WantSample() {
+		sampled[w.mode]++ // one written-out history per mode and child
 		rec.Sample(map[string]any{"mode": w.mode, "initial": cfgString(w.cfg), "ops": seqString(w.seq), "params": w.desc, "events": w.dump()})
 	}
 	return out
 }
+
+var sampled = map[string]int{}
 
 // ---------------------------------------------------------------- plans
 
